@@ -7,11 +7,13 @@ package sx
 
 import (
 	"fmt"
+	"os"
 	"strconv"
 	"strings"
 	"time"
 
 	"verif/internal/harness"
+	"verif/internal/space"
 )
 
 // Call is one API call of a logical thread.
@@ -48,8 +50,13 @@ var Programs = []string{
 	`(?i)foobar|bazqux`, `x[α-ω]+`,
 }
 
-// quickSkip: programs whose strategy is already represented by another program of the quick tier.
-var quickSkip = map[string]bool{`\bfoo\b`: true, `a.*b`: true, `.*\.txt`: true, `(?i)foobar|bazqux`: true}
+// generated literal alternations: 33 literals select Fat Teddy (its scratch comes from a package-level pool), 70
+// select Aho-Corasick; and the four-part class sequence handled by the composite sequence DFA
+var lits33, lits70 = space.GenLiterals(33), space.AhoLiterals(70)
+
+func init() {
+	Programs = append(Programs, strings.Join(lits33, "|"), strings.Join(lits70, "|"), `[a-z]+[0-9]+[a-z]+[A-Z]+`)
+}
 
 // LargePrograms are explored with one haystack beyond the bounded backtracker's input limit (32 Mi / NFA states
 // entries), which switches the engine to its large-input fallback paths. A haystack written "@repeat:N:text" stands
@@ -83,18 +90,25 @@ func HaysFor(pattern string) []string {
 		`.*\.(txt|log|md)`: {"a.log", "x.md y.txt"}, `\w+@\w+`: {"me@host", "a@b c@d"}, `(?m)^.*\.php`: {"/x.php", "a\n/b.php"},
 		`foo|bar|baz`: {"xxbarxx", "bazfoo"}, `\d+\.\d+`: {"v1.25", "3.14 2.71"}, `(?i)foobar|bazqux`: {"FooBar", "xBAZQUXx"}, `x[α-ω]+`: {"xαβγ", "xx ω xω"},
 	}
-	h := m[pattern]
+	m[strings.Join(lits33, "|")] = [2]string{lits33[5] + "xx" + lits33[20] + " padding beyond sixteen bytes " + lits33[32], "zz" + lits33[32]}
+	m[strings.Join(lits70, "|")] = [2]string{lits70[5] + "xx" + lits70[69] + " padding beyond sixteen bytes " + lits70[40], "zz" + lits70[64]}
+	m[`[a-z]+[0-9]+[a-z]+[A-Z]+`] = [2]string{"ab12cdEF", "a1a1aB x9yZ"}
+	h, ok := m[pattern]
+	if !ok {
+		panic("sx: no haystacks for program " + pattern)
+	}
 	return []string{h[0], h[1], ""}
 }
 
-// Units enumerates the harnesses of a tier. Quick, for 18 of the 22 programs: every API against itself on the same and
-// on two different haystacks (16), three mixed pairs on the same haystack, three 2-calls-per-thread harnesses with
-// the same call pair on both threads in opposite haystack order, and for every fourth program two 3-thread harnesses
-// and a longest-mode one. Thorough: every unordered API pair (with repetition) on same / different / empty haystacks,
-// all nine 2x2 combinations, and the 3-thread and longest harnesses for every program — a superset of quick.
+// Units enumerates the harnesses of a tier. Quick, for each of the 22 programs: every API against itself on the same and
+// on two different haystacks (16), every unordered pair of distinct APIs on the same haystack (28), three
+// 2-calls-per-thread harnesses with the same call pair on both threads in opposite haystack order, two 3-thread
+// harnesses and a longest-mode one. Thorough: every unordered API pair (with repetition) on same / different / empty
+// haystacks, all nine 2x2 combinations, the 3-thread and longest harnesses and a 3 threads x 2 calls harness for every
+// program — a superset of quick.
 func Units(thorough bool) []Unit {
 	var out []Unit
-	for pi, p := range Programs {
+	for _, p := range Programs {
 		hs := HaysFor(p)
 		if thorough {
 			for i, a := range APIs {
@@ -106,15 +120,12 @@ func Units(thorough bool) []Unit {
 				}
 			}
 		} else {
-			if quickSkip[p] {
-				continue // a second program of an already represented strategy: thorough tier only
-			}
-			for _, a := range APIs {
+			for i, a := range APIs {
 				out = append(out, Unit{p, false, [][]Call{{{a, hs[0]}}, {{a, hs[0]}}}})
 				out = append(out, Unit{p, false, [][]Call{{{a, hs[0]}}, {{a, hs[1]}}}})
-			}
-			for _, ab := range [][2]string{{"Match", "FindIndex"}, {"FindSubmatchIndex", "FindAllIndex"}, {"Match", "FindAllIndex"}} {
-				out = append(out, Unit{p, false, [][]Call{{{ab[0], hs[0]}}, {{ab[1], hs[0]}}}})
+				for _, b := range APIs[i+1:] {
+					out = append(out, Unit{p, false, [][]Call{{{a, hs[0]}}, {{b, hs[0]}}}})
+				}
 			}
 		}
 		// 2 threads × 2 calls: state hand-back and re-acquisition inside one thread
@@ -126,12 +137,16 @@ func Units(thorough bool) []Unit {
 				}
 			}
 		}
-		if thorough || pi%4 == 0 {
+		{
 			// 3 threads × 1 call
 			out = append(out, Unit{p, false, [][]Call{{{"Match", hs[0]}}, {{"FindIndex", hs[1]}}, {{"FindSubmatchIndex", hs[0]}}}})
 			out = append(out, Unit{p, false, [][]Call{{{"FindAllIndex", hs[0]}}, {{"Count", hs[0]}}, {{"ReplaceAllString", hs[1]}}}})
 			// longest mode
 			out = append(out, Unit{p, true, [][]Call{{{"FindIndex", hs[0]}}, {{"FindSubmatchIndex", hs[1]}}}})
+		}
+		if thorough {
+			// 3 threads × 2 calls: two hand-backs compete for the one-slot cache while a third thread acquires
+			out = append(out, Unit{p, false, [][]Call{{{"Match", hs[0]}, {"FindIndex", hs[1]}}, {{"FindIndex", hs[1]}, {"Match", hs[0]}}, {{"FindSubmatchIndex", hs[0]}, {"Count", hs[1]}}}})
 		}
 	}
 	// large-input fallback: one enumeration over a haystack beyond the backtracker limit, then concurrent small calls
@@ -154,10 +169,19 @@ var RunUnit func(w *harness.W, u Unit, bound int, capExec int)
 func Plan(tier string) *harness.Plan {
 	thorough := tier == "thorough"
 	units := Units(thorough)
-	bound, capExec := 2, 600
+	// an execution costs ~50 µs (interleavings) / ~1 ms (-race build) since the hand-off became a goroutine switch;
+	// executions over the large haystack cost ~50 ms / ~1 s
+	bound, capExec := 2, 20000
+	raceBound, raceCap := 2, 400 // quick: every schedule with <= 1 deviation, then those with 2 up to the cap
+	bigCap, bigRaceCap := 150, 24
 	budget := 150 * time.Second
 	if thorough {
-		bound, capExec, budget = 2, 200000, 25*time.Minute
+		bound, capExec, budget = 3, 300000, 25*time.Minute
+		raceBound, raceCap = 2, 20000
+		bigCap, bigRaceCap = 600, 60
+	}
+	if v, err := strconv.Atoi(os.Getenv("VF_SX_CAP")); err == nil && v > 0 {
+		capExec = v // maintenance: measuring how many schedules a bound needs
 	}
 	return &harness.Plan{
 		Units: len(units), Chunk: 2,
@@ -166,11 +190,15 @@ func Plan(tier string) *harness.Plan {
 				panic("sx: not an instrumented build")
 			}
 			b, c := bound, capExec
-			if w.Pass == "race-detector" && !thorough {
-				b, c = 1, 150 // the -race build is ~10x slower: the quick tier runs it at preemption bound 1
+			big := strings.Contains(units[u].String(), "@repeat:")
+			if big {
+				c = bigCap
 			}
-			if strings.Contains(units[u].String(), "@repeat:") {
-				c = min(c, 150) // executions over a large haystack are ~100x more expensive
+			if w.Pass == "race-detector" {
+				b, c = raceBound, raceCap
+				if big {
+					c = bigRaceCap
+				}
 			}
 			RunUnit(w, units[u], b, c)
 		},
@@ -183,9 +211,19 @@ func Plan(tier string) *harness.Plan {
 				}
 			}
 		},
-		Rule:  "Stateless model checking of the real code: the repository is rebuilt with sync.Pool and atomic.Pointer (Swap/CompareAndSwap/Load/Store) replaced (go build -overlay, generated from the current tree) by shims that make every such operation a scheduling point followed by the real atomic operation. For every program (one per strategy seed) and every harness (quick, 18 programs: every API against itself on the same and on two different haystacks, three mixed API pairs on one haystack, 2 threads × 2 calls with the same call pair in opposite haystack order, and for every fourth program 3 threads × 1 call and longest mode; thorough: every API pair on same / different / empty haystacks, all 2 × 2 combinations, 3-thread and longest harnesses for every program) ALL interleavings with at most c preemptions (c iterated 0,1,2; an explored 'the collector emptied the pool' environment choice also costs one) are enumerated depth-first; every execution starts from a freshly compiled value. Oracle A on every execution: no object obtained from a pool or atomic slot is obtained by a second thread while held; every call's result equals its result when run alone on a fresh value. Oracle B (second pass, -race build, same exhaustive schedules): the race detector's happens-before analysis on each explored execution — thread hand-off uses raw pipe system calls invisible to the detector, so it sees only the program's own synchronisation. states = scheduling points visited; transitions = scheduling decisions taken; evaluations = complete executions (schedules); non-trivial = executions with at least one preemption or environment deviation.",
+		Rule: "Stateless model checking of the real code: the repository is rebuilt with sync.Pool and atomic.Pointer (Swap/CompareAndSwap/Load/Store) replaced (go build -overlay, generated from the current tree) by shims that make every such operation a scheduling point followed by the real atomic operation. For every program (one per strategy seed plus Fat Teddy, Aho-Corasick and composite-sequence programs, 25) and every harness (quick: every API against itself on the same and on two different haystacks, every pair of distinct APIs on one haystack, 2 threads × 2 calls with the same call pair in opposite haystack order, 3 threads × 1 call and longest mode; thorough: every API pair on same / different / empty haystacks, all 2 × 2 combinations, 3-thread, longest and 3 threads × 2 calls harnesses) ALL interleavings with at most c preemptions (c iterated 0,1,2 and, thorough, 3; level c is completed before level c+1 is started and no schedule is executed twice; an explored 'the collector emptied the pool' environment choice also costs one) are enumerated depth-first; every execution starts from a freshly compiled value. Oracle A on every execution: no object obtained from a pool or atomic slot is obtained by a second thread while held; every call's result equals its result when run alone on a fresh value. Oracle B (second pass, -race build, same exhaustive schedules): the race detector's happens-before analysis on each explored execution — thread hand-off goes through a plain variable touched only by //go:norace code and runtime.Gosched, neither of which the detector models, so it sees only the program's own synchronisation (validated at the start of every race-build worker: unsynchronised increments under the scheduler are reported, a publication through the atomic shim is not). The race pass covers every schedule with at most 1 deviation and those with 2 up to its execution cap (thorough: all with at most 2). A harness whose execution cap was hit is complete only up to the bound counted under harnesses_complete_to_bound_<c>; the run is then reported exhaustive:false. states = scheduling points visited; transitions = scheduling decisions taken; evaluations = complete executions (schedules); non-trivial = executions with at least one preemption or environment deviation.",
+		Extra: func(total map[string]int64) map[string]any {
+			// a harness whose execution cap was hit is exhaustive only up to the deviation bound it completed: the run as a
+			// whole is then NOT called exhaustive for the nominal bound; what was fully covered is reported per bound
+			out := map[string]any{}
+			if total["harnesses_execution_cap_hit"] > 0 {
+				out["exhaustive"] = false
+				out["exhaustive_note"] = "execution cap hit in some harnesses: every harness is fully explored up to the deviation bound counted under harnesses_complete_to_bound_<c> (per pass); schedules_left_unexplored_at_cap counts the queued schedules of the next level that were not executed"
+			}
+			return out
+		},
 		Level: "model_checking", Budget: budget, UnitTimeout: 300 * time.Second,
-		Bounds: map[string]any{"threads_max": 3, "calls_per_thread_max": 2, "preemption_bound": bound, "executions_cap_per_harness": capExec, "programs": len(Programs), "harnesses": len(units)},
-		Assume: []string{"sequentially consistent interleavings at synchronisation operations; weak-memory reorderings are not modelled (L3)", "the race detector's happens-before analysis and the invisibility of raw pipe syscalls to it", "scheduling points are exactly the sync.Pool / atomic operations of the library (unsynchronised accesses are Oracle B's business)"},
+		Bounds: map[string]any{"threads_max": 3, "calls_per_thread_max": 2, "preemption_bound": bound, "executions_cap_per_harness": capExec, "race_pass_preemption_bound": raceBound, "race_pass_executions_cap_per_harness": raceCap, "large_haystack_executions_cap": bigCap, "large_haystack_race_pass_executions_cap": bigRaceCap, "programs": len(Programs), "harnesses": len(units)},
+		Assume: []string{"sequentially consistent interleavings at synchronisation operations; weak-memory reorderings are not modelled (L3)", "the race detector's happens-before analysis and the invisibility of the //go:norace turn variable and runtime.Gosched to it (self-checked in every race-build worker)", "scheduling points are exactly the sync.Pool / atomic operations of the library (unsynchronised accesses are Oracle B's business)"},
 	}
 }
